@@ -20,7 +20,7 @@ func init() {
 		ID:    "C07",
 		Level: "fault_enumeration",
 		Rule: "a raise (explicit ValueErr through a nested call, a natural ZeroDivisionErr, and a natural StopIterErr outside iterator bodies) is injected at every evaluation slot of every construct (array/object/map literal incl. unpacking, range bounds, call callee/arguments/keyword/unpack/trailing function, receiver, chain argument, " +
-			"infix/prefix operands, if/else parts, guarded jumps, assignment, embedded string pieces, index expressions, keyword defaults, element k of n in the 9 non-thoughtful chain context x 3 call forms), " +
+			"infix/prefix operands, if/else parts, guarded jumps, assignment, embedded string pieces, index expressions, keyword defaults, parameter expressions, _incBy/<=> hooks of an iterated range, the first step of an iterator consumed by each of 40 native Iterable methods, element k of n in the 9 non-thoughtful chain context x 3 call forms), " +
 			"single level and nested two levels, in 6 contexts (top-level program, function body with pending defer, try step, thoughtful scalar chain, list-chain element, deferred expression); " +
 			"oracle: nothing but pending-defer output after the marker, no assignment, injected kind+message reaches the handler/top, no error object stored inside a value; " +
 			"non-trivial = every case (each has exactly one injected fault); distinct = distinct (construct, slot, inner construct, inner slot, context, fault kind)",
@@ -105,6 +105,10 @@ var constructs = []construct{
 	{Name: "iter-chain-body-after-yield", Tmpl: "<{|i| yield i if i < 2; §0; recur(i + 1)}>.new(0).A", Slots: []string{"1"}},
 	{Name: "native-predicate", Tmpl: "[1, 2, 3].select {|v| §0}", Slots: []string{"true"}},
 	{Name: "native-iter-predicate", Tmpl: "(1:4).doWhile {|v| §0}.A", Slots: []string{"true"}},
+	// parameter positions hold arbitrary expressions (pattern parameters); hooks called while a range is iterated
+	{Name: "param-expression", Tmpl: "{|§0, §1| 5}", Slots: []string{"1", "2"}},
+	{Name: "range-incby-hook", Tmpl: "({v: 1, _incBy: m{|n| §0}, '<=>: m{|o| -1}}:5).A", Slots: []string{"1"}},
+	{Name: "range-spaceship-hook", Tmpl: "({v: 1, _incBy: m{|n| self}, '<=>: m{|o| §0}}:5).A", Slots: []string{"1"}},
 	{Name: "arr-nested-call", Tmpl: "[id(§0), id(id(§1))]", Slots: []string{"1", "2"}},
 	{Name: "guarded-return", Tmpl: "return §1 if §0", Slots: []string{"true", "1"}, Stmt: true, Fn: true},
 	{Name: "return", Tmpl: "return §0", Slots: []string{"1"}, Stmt: true, Fn: true},
@@ -163,7 +167,27 @@ type tcase struct {
 
 var all []construct
 
-func init() { all = append(append([]construct{}, constructs...), chainConstructs()...) }
+func init() {
+	all = append(append(append([]construct{}, constructs...), chainConstructs()...), consumerConstructs()...)
+}
+
+// consumerConstructs: every native Iterable method applied to an iterator whose first step raises
+// (lazy results are drained with .A): the error of the explicitly called step must come out.
+func consumerConstructs() []construct {
+	calls := []string{"A", "avg", "empty?", "first", "last", "max", "min", "std", "sum", "tally", "withI.A",
+		"acc({|a, b| b}).A", "all? {|x| true}", "any? {|x| false}", "exclude {|x| false}", "find {|x| false}", "keyBy {|x| x}", "lazyMap({|x| x}).A", "map {|x| x}",
+		"reduce({|a, b| b})", "select {|x| true}", "until({|x| false}).A", "while({|x| true}).A", "doUntil({|x| false}).A", "doWhile({|x| true}).A",
+		"append(9).A", "prepend(9).A", "chain([9]).A", "chunk(2).A", "index(5)", "indices(5)", "rindex(5)", "zip([1, 2]).A", "len", "sort", "uniq", "rev", "join(\"\")", "has?(5)", "flatten"}
+	var cs []construct
+	for _, call := range calls {
+		name := call
+		if i := strings.IndexAny(name, "({ "); i >= 0 {
+			name = name[:i]
+		}
+		cs = append(cs, construct{Name: "native-consumer/" + name, Tmpl: "<{|i| yield §0 if i < 2; recur(i + 1)}>.new(0)." + call, Slots: []string{"1"}})
+	}
+	return cs
+}
 
 func fill(c construct, fills []string) string {
 	s := c.Tmpl
@@ -463,10 +487,11 @@ func gen(thorough bool, emit func(tcase)) {
 	}
 }
 
-// inIterBody: constructs whose slots are evaluated inside an iterator body (written, or native select/doWhile),
+// inIterBody: constructs whose slots are evaluated inside an iterator body (written, native select/doWhile, or the
+// _incBy / <=> hooks that make up the next step of a range iterator),
 // where raising StopIterErr is how an iterator says it is exhausted.
 func inIterBody(oc construct) bool {
-	return strings.HasPrefix(oc.Name, "iter-") || strings.HasPrefix(oc.Name, "native-") || oc.Name == "guarded-yield" || oc.Name == "stmt-list-after-yield"
+	return strings.HasPrefix(oc.Name, "iter-") || strings.HasPrefix(oc.Name, "native-") || strings.HasSuffix(oc.Name, "-hook") || oc.Name == "guarded-yield" || oc.Name == "stmt-list-after-yield"
 }
 
 // nestable: slots whose value may be an arbitrary expression without changing what the outer
